@@ -1156,6 +1156,33 @@ def source_multi_case(rng, cid):
         # and one value too many on the command line is still refused
         aw2 = deliver(avals + [1])
         lines.append("pa eval x-lbl=source-multi-toomany x-exp=%s %s -- %s" % (G.hx("throw"), " ".join(opts), words_hex(aw2)))
+    # a value list that BEGINS in a source and is CONTINUED by free values at the start of the command line (the
+    # last-argument marker survives the end of the file and of the environment value: the words are evaluated as
+    # one sequence).  Own random stream, so that the cases above stay what they were (seeded change C07-5).
+    r2 = random.Random("source-continued-%s" % cid)
+    for _ in range(3):
+        pre = [r2.randint(0, 40) for _ in range(r2.randint(1, 3))]
+        rest = [r2.randint(0, 40) for _ in range(m)]
+        key = r2.choice(keyforms)
+        how = r2.choice(["env", "env", "file", "file+env"])
+        if how == "file+env" and len(pre) < 2:
+            how = "env"
+        opts = []
+        if how == "env":
+            opts.append("env=" + G.hx(" ".join([key] + [str(v) for v in pre])))
+        elif how == "file":
+            fl = [" ".join([key] + [str(v) for v in pre])]
+            if r2.random() < 0.5:
+                fl = ["# comment"] + fl
+            opts.append("file=" + "|".join(G.hx(l) for l in fl))
+        else:
+            k = r2.randint(1, len(pre) - 1)
+            opts.append("file=" + G.hx(" ".join([key] + [str(v) for v in pre[:k]])))
+            opts.append("env=" + G.hx(" ".join(str(v) for v in pre[k:])))
+        q = 1 if r2.random() < 0.4 else 0
+        aw = [str(v) for v in rest] + (["-Q"] if q else [])
+        exp = "ok 0:v=[%s] 1:f=%d" % (",".join(map(str, init + pre + rest)), q)
+        lines.append("pa eval x-lbl=source-continued x-exp=%s %s -- %s" % (G.hx(exp), " ".join(opts), words_hex(aw)))
     return Case(cid, [" ".join(l.split()) for l in lines])
 
 
